@@ -147,7 +147,7 @@ func (e *ixEngine) Generate(seed uint64, tier string, run int) (json.RawMessage,
 	n := rk.Range(3, 15)
 	faulty := rk.Chance(0.6)
 	for len(c.Steps) < n+3 {
-		w := []int{5, 3, 4, 3, 3, 1, 1, 2, 8, 0, 0, 0, 0, 0, 0}
+		w := []int{5, 3, 4, 3, 3, 1, 1, 2, 8, 0, 0, 0, 0, 0, 0, 2, 1, 1}
 		if faulty {
 			w[9], w[10], w[11] = 4, 2, 2
 		}
@@ -195,6 +195,17 @@ func (e *ixEngine) Generate(seed uint64, tier string, run int) (json.RawMessage,
 			c.Steps = append(c.Steps, IXStep{K: "clockback", N: rg.Range(1, 40)})
 		case 14:
 			c.Steps = append(c.Steps, IXStep{K: "stampfar", P: someFile(), M: rg.Intn(4)})
+		case 15: // a whole directory moves: every file keeps its mtime under a new path
+			c.Steps = append(c.Steps, IXStep{K: "renamedir", P: kernel.Pick(rg, ixDirs[1:]), P2: kernel.Pick(rg, []string{"moved", "a/moved", "b/x/moved", "moved2"})})
+		case 16: // a symlink keeps its path and points elsewhere
+			switch rg.Intn(2) {
+			case 0:
+				c.Steps = append(c.Steps, IXStep{K: "retarget", P: filepath.Join(kernel.Pick(rg, ixDirs), "l.ttf"), P2: someFile()})
+			default:
+				c.Steps = append(c.Steps, IXStep{K: "retarget", P: kernel.Pick(rg, []string{"link", filepath.Join(kernel.Pick(rg, ixDirs), "dirlink")}), P2: kernel.Pick(rg, ixDirs[1:])})
+			}
+		case 17: // a path changes kind: a file where a directory was, or the reverse
+			c.Steps = append(c.Steps, IXStep{K: "swapkind", P: kernel.Pick(rg, append(append([]string{}, ixDirs[1:]...), someFile())), Font: kernel.Pick(rg, ixFonts)})
 		}
 	}
 	c.Steps = append(c.Steps, IXStep{K: "boot"})
@@ -529,6 +540,49 @@ func (w *ixWorld) step(st *IXStep, roots []string) (*kernel.Violation, error) {
 					w.out.Count("probe.symlink", 1)
 				}
 			}
+		}
+	case "renamedir":
+		src, dst := w.abs(st.P), w.abs(st.P2)
+		if s1, err := os.Lstat(src); err == nil && s1.IsDir() {
+			if _, err := os.Lstat(dst); err != nil && !strings.HasPrefix(st.P2+"/", st.P+"/") {
+				if os.MkdirAll(filepath.Dir(dst), 0o755) == nil && os.Rename(src, dst) == nil {
+					for k, v := range w.stamps {
+						if strings.HasPrefix(k, st.P+"/") {
+							nk := st.P2 + k[len(st.P):]
+							w.stamps[nk] = v
+							w.dirty[nk] = true
+							delete(w.stamps, k)
+						}
+					}
+					w.out.Count("probe.directory_renamed", 1)
+				}
+			}
+		}
+	case "retarget":
+		p := w.abs(st.P)
+		if s1, err := os.Lstat(p); err == nil && s1.Mode()&os.ModeSymlink != 0 {
+			os.Remove(p)
+			if os.Symlink(filepath.Join(w.dir, w.abs(st.P2)), p) == nil {
+				w.out.Count("probe.symlink_retargeted", 1)
+			}
+		}
+	case "swapkind":
+		p := w.abs(st.P)
+		if s1, err := os.Lstat(p); err == nil && s1.Mode()&os.ModeSymlink == 0 {
+			if s1.IsDir() {
+				os.RemoveAll(p)
+				for k := range w.stamps {
+					if strings.HasPrefix(k, st.P+"/") {
+						delete(w.stamps, k)
+					}
+				}
+				w.writeFile(st.P, corpus.Bytes(st.Font), false)
+			} else {
+				os.Remove(p)
+				delete(w.stamps, st.P)
+				w.writeFile(filepath.Join(st.P, "inner.ttf"), corpus.Bytes(st.Font), false)
+			}
+			w.out.Count("probe.path_changed_kind", 1)
 		}
 	case "clockback":
 		w.now -= int64(st.N) * 1_000_003
